@@ -982,6 +982,22 @@ static rc::Gen<Program> gen_program(int max_threads, int max_ops) {
         if (*rc::gen::resize(100, rc::gen::inRange(0, 2)) == 1) put(i % p.nthreads, Op{T_SREL, i, 2});
       }
     }
+    // a third of the programs: a thread creates its private mock with an expectation that it publishes, and destroys the
+    // mock later on; another thread adopts (releases) that expectation at a generated position
+    if (*rc::gen::resize(100, rc::gen::inRange(0, 3)) == 1) {
+      int t = *rc::gen::resize(100, rc::gen::inRange(0, p.nthreads));
+      int u = (t + 1 + *rc::gen::resize(100, rc::gen::inRange(0, p.nthreads - 1))) % p.nthreads;   // u != t
+      auto& v = p.ops[static_cast<size_t>(t)];
+      size_t p1 = static_cast<size_t>(*rc::gen::resize(100, rc::gen::inRange(0, static_cast<int>(v.size()) + 1)));
+      v.insert(v.begin() + static_cast<long>(p1), Op{T_MOCKLIFE, 8 + *rc::gen::resize(100, rc::gen::inRange(0, 8)), 0});
+      size_t p2 = p1 + 1 + static_cast<size_t>(*rc::gen::resize(100, rc::gen::inRange(0, static_cast<int>(v.size() - p1))));
+      v.insert(v.begin() + static_cast<long>(p2), Op{T_MOCKLIFE, 0, *rc::gen::resize(100, rc::gen::inRange(0, 2))});
+      auto& w = p.ops[static_cast<size_t>(u)];
+      size_t p3 = static_cast<size_t>(*rc::gen::resize(100, rc::gen::inRange(0, static_cast<int>(w.size()) + 1)));
+      // adopt's operand selects the victim relative to the adopting thread: x = (u + 1 + a % (n - 1)) % n == t
+      int a = ((t - u - 1) % p.nthreads + p.nthreads) % p.nthreads;
+      w.insert(w.begin() + static_cast<long>(p3), Op{T_ADOPT, a});
+    }
     p.schedule = *rc::gen::container<std::vector<int>>(rc::gen::resize(100, rc::gen::inRange(0, 8)));
     if (p.schedule.size() > 64) p.schedule.resize(64);
     return p;
